@@ -331,7 +331,7 @@ class SimPipeline:
                 run.delivered[f].append(rec)
                 w.emit('deliver', f, rec)
                 qs0 = [v[1] for v in seen.values() if v is not None]
-                if xat >= 0 and qs0 and min(qs0) == xat:
+                if xat >= 0 and qs0 and min(qs0) >= xat:
                     end()
                 if b['slow']:
                     w.sleep(run.work_ms / 1000)
